@@ -386,7 +386,8 @@ class Gen(object):
             pass
         if kind in ("gen", "agen"):
             self.emit(1, "if False: yield")
-        extra = ["    LFN = FN"]
+        # (a local bound to None: a stray id(None) lookup in the varname fallback would pick it up)
+        extra = ["    LFN = FN", "    pending = None"]
         if self.globals_decl:
             extra.append("    global " + ", ".join(self.globals_decl))
         if self.cellvars:
